@@ -6,7 +6,8 @@ package sqlite
 // from this file with or without the tag. Syntax: see /verif/DESIGN.md.
 
 //@ func (*SqliteStoreWorker).readPromise
-//@ props C16 C17
+//@ props C16 C17 C01 C04 C20
+//@ nopanic C13
 //@ ghostdb store
 //@ requires cmd != nil
 //@ ensures err == nil ==> db_is_cmd(cmd)
@@ -14,7 +15,8 @@ package sqlite
 //@ ensures err != nil ==> result == nil
 
 //@ func (*SqliteStoreWorker).createPromise
-//@ props C16 C17
+//@ props C16 C17 C01 C03 C20
+//@ nopanic C13
 //@ ghostdb store
 //@ stmt stmt PROMISE_INSERT_STATEMENT
 //@ requires cmd != nil
@@ -24,7 +26,8 @@ package sqlite
 //@ ensures err != nil ==> result == nil
 
 //@ func (*SqliteStoreWorker).createPromiseAndTask
-//@ props C16 C17
+//@ props C16 C17 C01 C03 C06 C08
+//@ nopanic C13
 //@ ghostdb store
 //@ stmt promiseStmt PROMISE_INSERT_STATEMENT
 //@ stmt TaskStmt TASK_INSERT_STATEMENT
@@ -39,7 +42,8 @@ package sqlite
 //@ ensures err != nil ==> result == nil
 
 //@ func (*SqliteStoreWorker).updatePromise
-//@ props C16 C17
+//@ props C16 C17 C01 C03 C04
+//@ nopanic C13
 //@ ghostdb store
 //@ stmt stmt PROMISE_UPDATE_STATEMENT
 //@ requires cmd != nil
@@ -50,7 +54,8 @@ package sqlite
 //@ ensures err != nil ==> result == nil
 
 //@ func (*SqliteStoreWorker).createCallback
-//@ props C16 C17
+//@ props C16 C17 C05
+//@ nopanic C13
 //@ ghostdb store
 //@ stmt stmt CALLBACK_INSERT_STATEMENT
 //@ requires cmd != nil
@@ -60,7 +65,8 @@ package sqlite
 //@ ensures err != nil ==> result == nil
 
 //@ func (*SqliteStoreWorker).deleteCallbacks
-//@ props C16 C17
+//@ props C16 C17 C05
+//@ nopanic C13
 //@ ghostdb store
 //@ stmt stmt CALLBACK_DELETE_STATEMENT
 //@ requires cmd != nil
@@ -69,7 +75,8 @@ package sqlite
 //@ ensures err != nil ==> result == nil
 
 //@ func (*SqliteStoreWorker).readSchedule
-//@ props C16 C17
+//@ props C16 C17 C10
+//@ nopanic C13
 //@ ghostdb store
 //@ requires cmd != nil
 //@ ensures err == nil ==> db_is_cmd(cmd)
@@ -77,7 +84,8 @@ package sqlite
 //@ ensures err != nil ==> result == nil
 
 //@ func (*SqliteStoreWorker).createSchedule
-//@ props C16 C17
+//@ props C16 C17 C10
+//@ nopanic C13
 //@ ghostdb store
 //@ stmt stmt SCHEDULE_INSERT_STATEMENT
 //@ requires cmd != nil
@@ -87,7 +95,8 @@ package sqlite
 //@ ensures err != nil ==> result == nil
 
 //@ func (*SqliteStoreWorker).updateSchedule
-//@ props C16 C17
+//@ props C16 C17 C10
+//@ nopanic C13
 //@ ghostdb store
 //@ stmt stmt SCHEDULE_UPDATE_STATEMENT
 //@ requires cmd != nil
@@ -96,7 +105,8 @@ package sqlite
 //@ ensures err != nil ==> result == nil
 
 //@ func (*SqliteStoreWorker).deleteSchedule
-//@ props C16 C17
+//@ props C16 C17 C10
+//@ nopanic C13
 //@ ghostdb store
 //@ stmt stmt SCHEDULE_DELETE_STATEMENT
 //@ requires cmd != nil
@@ -105,7 +115,8 @@ package sqlite
 //@ ensures err != nil ==> result == nil
 
 //@ func (*SqliteStoreWorker).readLock
-//@ props C16 C17
+//@ props C16 C17 C09
+//@ nopanic C13
 //@ ghostdb store
 //@ requires cmd != nil
 //@ ensures err == nil ==> db_is_cmd(cmd)
@@ -113,7 +124,8 @@ package sqlite
 //@ ensures err != nil ==> result == nil
 
 //@ func (*SqliteStoreWorker).acquireLock
-//@ props C16 C17
+//@ props C16 C17 C09
+//@ nopanic C13
 //@ ghostdb store
 //@ stmt stmt LOCK_ACQUIRE_STATEMENT
 //@ requires cmd != nil
@@ -122,7 +134,8 @@ package sqlite
 //@ ensures err != nil ==> result == nil
 
 //@ func (*SqliteStoreWorker).releaseLock
-//@ props C16 C17
+//@ props C16 C17 C09
+//@ nopanic C13
 //@ ghostdb store
 //@ stmt stmt LOCK_RELEASE_STATEMENT
 //@ requires cmd != nil
@@ -131,7 +144,8 @@ package sqlite
 //@ ensures err != nil ==> result == nil
 
 //@ func (*SqliteStoreWorker).hearbeatLocks
-//@ props C16 C17
+//@ props C16 C17 C09
+//@ nopanic C13
 //@ ghostdb store
 //@ stmt stmt LOCK_HEARTBEAT_STATEMENT
 //@ requires cmd != nil
@@ -140,7 +154,8 @@ package sqlite
 //@ ensures err != nil ==> result == nil
 
 //@ func (*SqliteStoreWorker).timeoutLocks
-//@ props C16 C17
+//@ props C16 C17 C09
+//@ nopanic C13
 //@ ghostdb store
 //@ stmt stmt LOCK_TIMEOUT_STATEMENT
 //@ requires cmd != nil
@@ -149,7 +164,8 @@ package sqlite
 //@ ensures err != nil ==> result == nil
 
 //@ func (*SqliteStoreWorker).readTask
-//@ props C16 C17
+//@ props C16 C17 C07
+//@ nopanic C13
 //@ ghostdb store
 //@ requires cmd != nil
 //@ ensures err == nil ==> db_is_cmd(cmd)
@@ -157,7 +173,8 @@ package sqlite
 //@ ensures err != nil ==> result == nil
 
 //@ func (*SqliteStoreWorker).createTask
-//@ props C16 C17
+//@ props C16 C17 C08
+//@ nopanic C13
 //@ ghostdb store
 //@ stmt stmt TASK_INSERT_STATEMENT
 //@ requires cmd != nil
@@ -169,7 +186,8 @@ package sqlite
 //@ ensures err != nil ==> result == nil
 
 //@ func (*SqliteStoreWorker).createTasks
-//@ props C16 C17
+//@ props C16 C17 C05 C08
+//@ nopanic C13
 //@ ghostdb store
 //@ stmt stmt TASK_INSERT_ALL_STATEMENT
 //@ requires cmd != nil
@@ -178,7 +196,8 @@ package sqlite
 //@ ensures err != nil ==> result == nil
 
 //@ func (*SqliteStoreWorker).completeTasks
-//@ props C16 C17
+//@ props C16 C17 C05 C08
+//@ nopanic C13
 //@ ghostdb store
 //@ stmt stmt TASK_COMPLETE_BY_ROOT_ID_STATEMENT
 //@ requires cmd != nil
@@ -187,7 +206,8 @@ package sqlite
 //@ ensures err != nil ==> result == nil
 
 //@ func (*SqliteStoreWorker).updateTask
-//@ props C16 C17
+//@ props C16 C17 C07 C08
+//@ nopanic C13
 //@ ghostdb store
 //@ stmt stmt TASK_UPDATE_STATEMENT
 //@ requires cmd != nil
@@ -198,7 +218,8 @@ package sqlite
 //@ loop 1 invariant rangeindex + 1 <= len(cmd.CurrentStates) && currentStates == maskprefix(cmd.CurrentStates, rangeindex + 1)
 
 //@ func (*SqliteStoreWorker).heartbeatTasks
-//@ props C16 C17
+//@ props C16 C17 C07
+//@ nopanic C13
 //@ ghostdb store
 //@ stmt stmt TASK_HEARTBEAT_STATEMENT
 //@ requires cmd != nil
